@@ -20,6 +20,7 @@ DESCRIPTIONS_HOSTILE = [
     'say "hi"', "it's", 'ends with quote"', 'triple """ inside', "back\\slash", "ends with backslash\\",
     "new\nline", "tab\there", "ünï cödé 日本", "", " leading space", "trailing space ", "\\n literal",
     "  indented first line\n  second line", "ends with newline\n", "\n\nblank lines around\n\n", "tab\tinside and    spaces",
+    "astral \U0001F600 and back\\slash", "astral \U00010348 ends with quote\"", "\U0001F600", "bmp edge \uffff\ufffe \"\"\" x",
     "percent %s {brace}", "'''", "\"", "\\", "a\\\"b", "carriage\rreturn", "\x0bvertical", "nul\x00byte",
 ]
 
@@ -187,31 +188,45 @@ def _pointer(body, pointer):
     return node
 
 
+SCHEMA_KEYS = ("additionalItems", "contains", "additionalProperties", "propertyNames", "not")
+SCHEMA_LIST_KEYS = ("anyOf", "oneOf", "allOf")
+SCHEMA_MAP_KEYS = ("properties", "patternProperties", "definitions")
+
+
 def resolve(doc, node=None, current=None, depth=0):
-    """Inline all $refs of an (acyclic) multi-file document."""
+    """Inline all $refs of an (acyclic) multi-file document.  The walk goes by POSITION, never by the
+    spelling of a key: a property may be called "enum", "default" or "definitions"."""
     if depth > 80:
         raise RecursionError("cyclic document")
     current = doc["entry"] if current is None else current
     node = doc["files"][current] if node is None else node
-    if isinstance(node, dict):
-        if "$ref" in node and isinstance(node["$ref"], str):
-            ref = node["$ref"]
-            if ref.startswith("#"):
-                target_file, pointer = current, ref
-            else:
-                target_file, _, pointer = ref.partition("#")
-            target = _pointer(doc["files"][target_file], pointer)
-            return resolve(doc, target, target_file, depth + 1)
-        out = {}
-        for key, val in node.items():
-            if key in ("const", "enum", "default"):
-                out[key] = copy.deepcopy(val)
-            else:
-                out[key] = resolve(doc, val, current, depth + 1)
-        return out
-    if isinstance(node, list):
-        return [resolve(doc, val, current, depth + 1) for val in node]
-    return node
+    if not isinstance(node, dict):
+        return copy.deepcopy(node)     # boolean schema
+    if "$ref" in node and isinstance(node["$ref"], str):
+        ref = node["$ref"]
+        if ref.startswith("#"):
+            target_file, pointer = current, ref
+        else:
+            target_file, _, pointer = ref.partition("#")
+        target = _pointer(doc["files"][target_file], pointer)
+        return resolve(doc, target, target_file, depth + 1)
+    out = {}
+    for key, val in node.items():
+        if key in SCHEMA_KEYS:
+            out[key] = resolve(doc, val, current, depth + 1)
+        elif key == "items":
+            out[key] = ([resolve(doc, member, current, depth + 1) for member in val] if isinstance(val, list)
+                        else resolve(doc, val, current, depth + 1))
+        elif key in SCHEMA_LIST_KEYS and isinstance(val, list):
+            out[key] = [resolve(doc, member, current, depth + 1) for member in val]
+        elif key in SCHEMA_MAP_KEYS and isinstance(val, dict):
+            out[key] = {name: resolve(doc, member, current, depth + 1) for name, member in val.items()}
+        elif key == "dependencies" and isinstance(val, dict):
+            out[key] = {name: (copy.deepcopy(member) if isinstance(member, list)
+                               else resolve(doc, member, current, depth + 1)) for name, member in val.items()}
+        else:
+            out[key] = copy.deepcopy(val)
+    return out
 
 
 def object_schemas(schema, out=None, top=True):
